@@ -13,6 +13,12 @@ This is the model of the *harness* (`harness/src/e_c20.rs` does the same thing a
 * `setCapacity c`       — `set_dynamic_table_size` on the encoder's table
 * `cancel sid`          — the decoder abandons stream `sid` (`stream_canceled`); nothing on it is decoded any more
 
+Cut deliveries (`stepCut`, case-line op `denc:<k>@<j>.<m>,…`): the same `k` instructions in a `Buf` of several chunks.
+`Decoder::parse_instruction` reads `read.chunk()` only, so an instruction that crosses a chunk boundary is not parsed and
+nothing behind it either, however often `on_encoder_recv` is called on that `Buf` (D-20f): the call is a whole delivery of
+the instructions in front of the first one that has a cut INSIDE it (`cutLen`).  `atRisk` counts the streams that could
+become blocked (RFC 9204 2.1.2) for the observation O-20e.
+
 The first error or panic of any call ends the history (`Res.err` / `Res.panic`). -/
 namespace H3.Dyn
 
@@ -149,5 +155,35 @@ def run : Sys → List Event → Option Sys
   | s, e :: r => match step s e with
     | .ok (s1, _) => run s1 r
     | _ => none
+
+/-! ### cut deliveries (D-20f) and the blocked-stream count (O-20e) -/
+
+/-- the instruction is ONE byte on the encoder stream (Duplicate / Set Dynamic Table Capacity whose value fits the
+    5-bit prefix); every insertion has at least two bytes (index or name length, value length) -/
+def EncInstr.oneByte : EncInstr → Bool
+  | .dup r => r < 31
+  | .sizeUpdate n => n < 31
+  | _ => false
+
+/-- cut `(j, m)`: `m = 0` the boundary in front of instruction `j` of the delivery, `m ≥ 1` inside it (an instruction of
+    one byte cannot be cut; a `j` beyond the delivery cuts nothing) -/
+def innerCut (ins : List EncInstr) (c : Nat × Nat) : Bool :=
+  c.2 != 0 && (ins.drop c.1).head?.any (fun i => !i.oneByte)
+
+/-- number of instructions `on_encoder_recv` processes: those in front of the first instruction with a cut inside it -/
+def cutLen (ins : List EncInstr) (cuts : List (Nat × Nat)) : Nat :=
+  ((cuts.filter (innerCut ins)).map (·.1)).foldl min ins.length
+
+/-- the instructions `deliverEnc k` hands over -/
+def Sys.handed (s : Sys) (k : Nat) : List EncInstr := (s.encQ.drop s.encDel).take k
+
+/-- `deliverEnc k` in chunks -/
+def stepCut (s : Sys) (k : Nat) (cuts : List (Nat × Nat)) : Res (Sys × Out) :=
+  step s (.deliverEnc (cutLen (s.handed k) cuts))
+
+/-- RFC 9204 2.1.2 "streams that could become blocked": streams with a section the encoder has not released
+    (unacknowledged) whose Required Insert Count is larger than the encoder's known received count -/
+def atRisk (s : Sys) : Nat :=
+  (s.streams.filter fun (_, st) => ((st.done ++ st.todo).drop st.npop).any fun b => b.required > s.enc.lkr).length
 
 end H3.Dyn
